@@ -80,7 +80,7 @@ def decide_scalar(e, facts):
     if isinstance(v, int) and not isinstance(v, bool):
       if any(n_ in ('int', 'Integral', 'Number', 'Real', 'Rational', 'integer', 'object') for n_ in names):
         return True
-      if all(n_ in ('RandomState', 'Generator', 'str', 'float', 'list', 'tuple', 'dict', 'set', 'ndarray', 'BitGenerator', 'SeedSequence') for n_ in names):
+      if all(n_ in ('RandomState', 'Generator', 'str', 'float', 'list', 'tuple', 'dict', 'set', 'ndarray', 'BitGenerator', 'SeedSequence', 'bool', 'bytes', 'complex', 'frozenset', 'Series', 'DataFrame', 'Timestamp', 'floating') for n_ in names):
         return False
     if v is None:
       return True if any(n_ in ('NoneType', 'object') for n_ in names) else (False if all(n_[:1].isupper() or n_ in ('int', 'float', 'str', 'integer') for n_ in names) else None)
@@ -771,5 +771,11 @@ def kwarg_subdict_rule(repo, rep, rule):
   ok = len(rets) == 1 and isinstance(rets[0].value, (ast.DictComp, ast.Name, ast.Call))
   if len(rets) == 1 and isinstance(rets[0].value, ast.DictComp):
     v = norm(rets[0].value.value)
+    # a private copy of the keyword table (named = dict(kwargs)) read under the key being forwarded is the keyword's value
+    copies_ = {t_.id for a_ in walk_no_nested(f.node) if isinstance(a_, ast.Assign) and len(a_.targets) == 1 for t_ in a_.targets
+               if isinstance(t_, ast.Name) and norm(a_.value) in ('dict(kwargs)', 'kwargs', 'kwargs.copy()', 'dict(**kwargs)', '{**kwargs}')}
+    m_ = re.fullmatch(r'(\w+)\[\w+\]', v)
+    if m_ and m_.group(1) in copies_:
+      v = 'kwargs[%s' % v.split('[', 1)[1]
     rep.check(re.fullmatch(r'kwargs\[\w+\]|\w+', v) is not None, rule, 'kwarg_subdict forwards the value unchanged', f.qualname, v[:60],
               'kwarg_subdict forwards `%s` instead of the keyword\'s value' % v[:60], f.loc(rets[0]))
